@@ -387,6 +387,11 @@ class Configuration(BaseConfig, Immutable):
             rmin=rmin, rmax=rmax, unit=unit, rweight=rweight, resolution=resolution
         )
 
+        # bin edges may depend on the cosmology, retain the current one if not set
+        cosmology = (
+            self.cosmology if cosmology is NotSet else parse_cosmology(cosmology)
+        )
+
         binning = self.binning.modify(
             zmin=zmin,
             zmax=zmax,
@@ -395,10 +400,6 @@ class Configuration(BaseConfig, Immutable):
             edges=edges,
             closed=closed,
             cosmology=cosmology,
-        )
-
-        cosmology = (
-            self.cosmology if cosmology is NotSet else parse_cosmology(cosmology)
         )
         max_workers = self.max_workers if max_workers is NotSet else max_workers
 
